@@ -179,14 +179,15 @@ class Prepared:
         ds = 'N' if d is None else 'D' + ','.join('%s:%d' % (hexs(n), TYPES.index(t)) for n, t in d)
         return '%d~%s~%s' % (cid, ds, ','.join(self.enc_fams[cid]) or '.')
 
-    def request(self, ops=None, namesets=()):
+    def request(self, ops=None, namesets=(), watch=None):
         case = self.case
         ops = case['ops'] if ops is None else ops
+        w = '' if watch is None else ' ' + (';'.join('%d@%s' % (k, ','.join(hexs(n) for n in ns) or '_') for k, ns in watch) or '.')
         return 'c06 hist %d %s %s %s %s' % (
             1 if self.ad else 0, enc_labels(case['ti']),
             ';'.join(self.enc_collector(c['id']) for c in case['collectors']) or '.',
             ';'.join(enc_op(o) for o in ops) or '.',
-            ';'.join((','.join(hexs(n) for n in ns) or '_') for ns in namesets) or '.')
+            ';'.join((','.join(hexs(n) for n in ns) or '_') for ns in namesets) or '.') + w
 
 
 def hexs(s):
@@ -238,8 +239,9 @@ def diff(before, after):
     return '; '.join(out)
 
 
-def run_history(prep, ops, fail, count=lambda k: None):
-    """drive the real registry through `ops`; evaluate the oracle; returns the per-step observations"""
+def run_history(prep, ops, fail, count=lambda k: None, after_step=None):
+    """drive the real registry through `ops`; evaluate the oracle; returns the per-step observations.
+    `after_step(k, reg, snapshot)` is called once before the first call (k = 0) and after the k-th call."""
     from prometheus_client.registry import CollectorRegistry
     case = prep.case
     reg = CollectorRegistry(auto_describe=prep.ad, target_info=copy.copy(case['ti']))
@@ -247,6 +249,8 @@ def run_history(prep, ops, fail, count=lambda k: None):
     tainted = False   # after an F6-class event (fixed in /repo; reported as a violation) the registry is corrupt: the oracle
                       # stops for this history so that the consequences are not reported under other signatures; T2 goes on
     before = snapshot(prep, reg)
+    if after_step:
+        after_step(0, None, None, reg, before)
     for step, op in enumerate(ops):
         registered = before[1]                      # ids whose collect() the registry invokes, in order
         ti_set = bool(before[4])
@@ -367,6 +371,8 @@ def run_history(prep, ops, fail, count=lambda k: None):
         o.calls = after[1]
         o.opcalls = opcalls
         obs.append(o)
+        if after_step:
+            after_step(step + 1, op, o.err, reg, after)
         before = after
     return obs, reg
 
@@ -374,7 +380,7 @@ def run_history(prep, ops, fail, count=lambda k: None):
 def compare_steps(reply, obs):
     """model observations (driver reply) vs real observations; returns None or a description"""
     parts = reply.split(' ')
-    if parts[0] != 'ok' or len(parts) != 3:
+    if parts[0] != 'ok' or len(parts) not in (3, 4):
         return 'driver: %r' % reply[:200]
     steps = [] if parts[1] == '.' else parts[1].split(';')
     if len(steps) != len(obs):
